@@ -50,7 +50,7 @@ def tfy(children, repr_ok=False):
         st.builds(lambda s: {"k": "text", "s": s}, gen.hot_text(3)),
         st.sampled_from([{"k": "html", "s": "<i>h</i>"}, DEPS[0], DEPS[3], DEPS[4]]),
     )
-    variant = st.just(None) if repr_ok else st.sampled_from([None, None, None, "stored", "strsub", "iter", "flaky", "flex", "tagsub"])
+    variant = st.just(None) if repr_ok else st.sampled_from([None, None, None, "stored", "strsub", "iter", "flaky", "flex", "tagsub", "listsub"])
     return st.builds(lambda r, rp, v: {"k": "tfy", "res": r, "repr": rp, "variant": v}, res, st.booleans() if repr_ok else st.just(False), variant)
 
 
@@ -332,7 +332,7 @@ CLAUSES = [
         quick=700,
         thorough=10000,
         shards_quick=4,
-        required=("empty-expansion-adjacent", "nested-expansion", "variant:stored", "variant:strsub", "variant:iter", "variant:flaky", "variant:flex", "variant:tagsub", "earlier-rendering-raised", "prior-plain-instances+flex", "document-grew-between-renderings", "tagify-result-grew-then-rendered"),
+        required=("empty-expansion-adjacent", "nested-expansion", "variant:stored", "variant:strsub", "variant:iter", "variant:flaky", "variant:flex", "variant:tagsub", "variant:listsub", "earlier-rendering-raised", "prior-plain-instances+flex", "document-grew-between-renderings", "tagify-result-grew-then-rendered"),
         rule="see RULE",
     ),
     Clause(
